@@ -389,6 +389,7 @@ package composite
 //@ let $observed = result (composite.ComposedResourceObserver).ObserveComposedResources
 //@ let $o = result composite.AsState
 //@ let $prevRsp = result (composite.FunctionRunner).RunFunction
+//@ let $newcd = result composed.New
 //@ site (composite.ComposedResourceObserver).ObserveComposedResources(_, _, $x)
 //@   assert [C04:observes-this-xr] $x == xr
 //@   update observedOK = err == nil
@@ -401,13 +402,25 @@ package composite
 //@   assert [C03:no-step-after-a-failed-or-fatal-one] observedOK && pipelineOK && !sawFatal
 //@   update pipelineOK = pipelineOK && err == nil
 //@   update steps = steps + 1
+//@ ghost nresults int = 0
+//@ ghost nconds int = 0
 //@ site (*v1.Result).GetSeverity($r)
 //@   update sawFatal = sawFatal || result == fnv1.Severity_SEVERITY_FATAL
+//@   update nresults = nresults + 1
+//@ site (*v1.Condition).GetStatus($cnd)
+//@   update nconds = nconds + 1
 //@ loop range req.Revision.Spec.Pipeline
 //@   invariant [C03:pipeline-healthy-so-far] observedOK && pipelineOK && !sawFatal && !gcDone && !refsPersisted
+//@   invariant [C04:no-result-or-condition-dropped] len(events) == nresults && len(conditions) == nconds
 //@   invariant [C04:state-threaded-through] steps > 0 ==> (($prevRsp != nil ==> d == $prevRsp.Desired && fctx == $prevRsp.Context) && ($prevRsp == nil ==> d == nil && fctx == nil))
+//@ loop range rsp.GetConditions()
+//@   invariant [C04:every-condition-surfaced-in-order] len(conditions) == nconds && len(events) == nresults
 //@ loop range rsp.GetResults()
 //@   invariant [C03:no-fatal-result-so-far] observedOK && pipelineOK && !sawFatal && !gcDone && !refsPersisted
+//@   invariant [C04:every-result-surfaced-in-order] len(events) == nresults && len(conditions) == nconds
+//@ optional site *.SetName($cd, $n) as keep-name
+//@   where $cd == &$newcd.Unstructured
+//@   assert [C01:an-observed-resource-keeps-its-name] ok && $n == or.Resource.GetName()
 //@ loop range d.GetResources()
 //@   invariant [C03:still-nothing-written-while-loading-desired] observedOK && pipelineOK && !sawFatal && !gcDone && !refsPersisted
 //@   invariant [C01:aux-desired-resources-exist-before-the-reference-holder] forall k:Str :: k in desired ==> live(desired[k].Resource)
